@@ -799,6 +799,9 @@ class Interp:
             elif base.k == "dict" and isinstance(t.value, ast.Name):
                 env[t.value.id] = V("dict", elem=v if base.elem is None else self.join(base.elem, v, node))
             elif base.k == "list" and isinstance(t.value, ast.Name):
+                be = base.elem
+                if be is not None and be.is_numlike and v.is_numlike and not be.wild and not v.wild and not be.is_unk and not v.is_unk and be.dim_key() != v.dim_key():
+                    self.violation("DIM.D1", node, f"element store of {fmt(v.copy(sh=None))} into a list of {fmt(be.copy(sh=None))}: the entries of `{t.value.id}` no longer transform alike under feature rescaling")
                 env[t.value.id] = V("list", axis=base.axis, elem=v if base.elem is None or base.elem.k == "none" else self.join(base.elem, v, node))
         else:
             pass
@@ -1075,6 +1078,11 @@ class Interp:
         if not (a.is_numlike and b.is_numlike) or a.is_unk or b.is_unk:
             return None
         if a.wild or b.wild:
+            w_, o_ = (a, b) if a.wild else (b, a)
+            if what in ("addition", "subtraction") and not o_.wild and o_.k == "num" and o_.u != ZERO and isinstance(w_.cval, (int, float)) and not isinstance(w_.cval, bool) and w_.cval == 1:
+                # the number one (a literal, np.ones, an identity matrix) is a pure number in every unit system
+                self.violation("DIM.D1", node, f"{what} of the pure number 1 and {fmt(o_.copy(sh=None, s=0))}: `1 + x` (identity plus precision, one plus a ratio) needs a dimensionless x, so one factor of this term has the wrong power of the feature unit")
+                return False
             return b if a.wild else a
         if a.k == "log" or b.k == "log":
             return None
